@@ -195,6 +195,11 @@ def eval_watson(rp, rng):
     from pb_bss.distribution import ComplexWatsonTrainer
     y, s, kmax = np.array(rp['y']), rp['s'], rp['kmax']
     D, N = y.shape[-1], y.shape[-2]
+    # history: another trainer of the same dimension with ANOTHER concentration cap was used in this process before
+    try:
+        ComplexWatsonTrainer(max_concentration=(50.0 if kmax != 50 else 500.0)).fit(core.other_values(y))
+    except Exception:
+        pass
     m = ComplexWatsonTrainer(max_concentration=kmax).fit(y, saliency=s)
     ss = np.ones(y.shape[:-1]) if s is None else np.asarray(s, dtype=float)
     yn = y / np.maximum(np.linalg.norm(y, axis=-1, keepdims=True), TINY)
